@@ -18,6 +18,7 @@ type Mode int
 const (
 	Strict  Mode = iota // what an emitter must satisfy (C09, C17, C18, C20)
 	Lenient             // what a decoder may accept (C05): same integrity rules, no policing of version/reserved/dict-id bits
+	Walk                // Lenient without the legacy heuristics (kernel trailer, concatenation): plain block walk, used on flushed prefixes
 )
 
 // Field is one entry of the structure map of a parsed byte string.
@@ -314,6 +315,7 @@ func (f *Frame) parseLegacy(b []byte, p int, mode Mode) *Frame {
 		}
 		w := le32(b[p:])
 		if mode == Lenient && bi > 0 && uint64(w) == uint64(len(f.Content))&0xFFFFFFFF {
+			// (Walk mode never takes a size word for the kernel-style trailer)
 			f.field("ltrailer", p, 4, -1)
 			f.Trailer = true
 			p += 4
@@ -346,7 +348,7 @@ func (f *Frame) parseLegacy(b []byte, p int, mode Mode) *Frame {
 		res := DecodeBlock(b[p:p+blk.Size], LegacyBlock, nil)
 		p += blk.Size
 		if res.Kind != OK {
-			if mode == Lenient && res.Kind == UNSPEC {
+			if mode != Strict && res.Kind == UNSPEC {
 				f.Unspec = res.Why
 			} else {
 				return f.fail(blk.DataOff, "legacy block %d: invalid compressed data: %s %s", bi, res.Kind, res.Why)
